@@ -136,3 +136,65 @@ package migrate
 //@   ensures single: GvcIs[string](c.Reverse) ==> len(cmd) == 1 && cmd[0] == c.Reverse.(string)
 //@   ensures list: GvcIs[[]string](c.Reverse) ==> len(cmd) == len(c.Reverse.([]string)) &&
 //@           (forall i int :: 0 <= i && i < len(cmd) ==> cmd[i] == c.Reverse.([]string)[i])
+
+// ---------------------------------------------------------------------------------------
+// C11: pending-file computation
+
+//@ extern func (f CheckpointFile) IsCheckpoint() (b bool)
+//@   pure
+//@ spec func GvcIsCk(f File) bool { ck, ok := f.(CheckpointFile); return ok && ck.IsCheckpoint() }
+//@ rec GvcCntM
+//@ spec func GvcCntM(all []File, n int) int {
+//@ spec 	if n <= 0 {
+//@ spec 		return 0
+//@ spec 	}
+//@ spec 	if GvcIsCk(all[n-1]) {
+//@ spec 		return GvcCntM(all, n-1)
+//@ spec 	}
+//@ spec 	return GvcCntM(all, n-1) + 1
+//@ spec }
+
+//@ func FilesLastIndex[F File](files []F, f func(F) bool) (r int)
+//@   requires f != nil
+//@   ensures range: -1 <= r && r < len(files)
+//@   ensures found: r >= 0 ==> f(files[r])
+//@   ensures last: (forall j int :: r < j && j < len(files) ==> !f(files[j]))
+//@   loop 1 invariant -1 <= i && i < len(files)
+//@   loop 1 invariant (forall j int :: i < j && j < len(files) ==> !f(files[j]))
+//@   loop 1 decreases i + 1
+
+//@ func SkipCheckpointFiles(all []File) (r []File)
+//@   ensures count: len(r) == old(GvcCntM(all, len(all)))
+//@   ensures kept-in-order: (forall i int :: 0 <= i && i < len(all) && !old(GvcIsCk(all[i])) ==> r[old(GvcCntM(all, i))] == old[File](all[i]))
+//@   ensures positions: (forall i int :: 0 <= i && i < len(all) && !old(GvcIsCk(all[i])) ==> 0 <= old(GvcCntM(all, i)) && old(GvcCntM(all, i)) < len(r))
+//@   ensures fresh: GvcFresh(r)
+//@   ensures nonnil-kept: (forall i int :: 0 <= i && i < len(all) ==> old(all[i] != nil)) ==> (forall p int :: 0 <= p && p < len(r) ==> r[p] != nil)
+//@   loop 1 localwrites
+//@   loop 1 invariant (forall i int :: 0 <= i && i < len(all) ==> old(all[i] != nil)) ==> (forall p int :: 0 <= p && p < len(files) ==> files[p] != nil)
+//@   loop 1 invariant 0 <= loopk && loopk <= len(all) && len(files) == old(GvcCntM(all, loopk)) && GvcFresh(files)
+//@   loop 1 invariant (forall i int :: 0 <= i && i < loopk && !old(GvcIsCk(all[i])) ==> 0 <= old(GvcCntM(all, i)) && old(GvcCntM(all, i)) < len(files))
+//@   loop 1 invariant (forall i int :: 0 <= i && i < loopk && !old(GvcIsCk(all[i])) ==> files[old(GvcCntM(all, i))] == old[File](all[i]))
+
+//@ extern func (d Dir) Files() (fs []File, err error)
+//@   ensures err == nil ==> (forall i int :: 0 <= i && i < len(fs) ==> fs[i] != nil)
+//@   ensures err == nil ==> (forall i int, j int :: 0 <= i && i < j && j < len(fs) ==> fs[i].Version() < fs[j].Version())
+//@ extern func (rw RevisionReadWriter) ReadRevisions(ctx context.Context) (rs []*Revision, err error)
+//@   ensures err == nil ==> (forall i int :: 0 <= i && i < len(rs) ==> rs[i] != nil)
+//@   ensures err == nil ==> (forall i int, j int :: 0 <= i && i < j && j < len(rs) ==> rs[i].Version < rs[j].Version)
+//@ extern func (rw RevisionReadWriter) Ident() (t *TableIdent)
+//@ extern func (c CleanChecker) CheckClean(ctx context.Context, t *TableIdent) (err error)
+
+//@ func (e *Executor) ValidateDir(ctx context.Context) (err error)
+//@   trusted
+
+//@ func FilesFromLastCheckpoint(dir Dir) (fs []File, err error)
+//@   trusted
+//@   ensures err == nil ==> (forall i int :: 0 <= i && i < len(fs) ==> fs[i] != nil)
+
+//@ func (e *Executor) Pending(ctx context.Context) (fs []File, err error)
+//@   requires e != nil && e.dir != nil && e.rrw != nil && e.log != nil && e.drv != nil
+//@   modifies struct(Revision), GvcStore, GvcWrites
+//@   ensures nothing-pending-is-an-error: err == nil ==> len(fs) > 0
+//@   ensures error-returns-no-files: err != nil ==> len(fs) == 0
+//@   loop 1 localwrites
+//@   loop 1 invariant skipped == nil || GvcFresh(skipped)
